@@ -5,6 +5,7 @@ CONSTANTS
   KeepHist = FALSE
   GateAtomic = FALSE
   NonIdemRetry = FALSE
+  Defect_WaitResultsOnly = FALSE
 VIEW View
 INVARIANTS NoViolation AttemptsWithinPolicies RetryHostAsDecided RethrowIgnoreStop NothingAfterCancel
   NonIdemOneExecution NonIdemNeverRetried OneResultFirstLastError
